@@ -366,6 +366,34 @@ static const char* numeric_range_convertible_types()
     return "cihTF";
 }
 
+//! whether @a a + @a b (@a sign = 1) or @a a - @a b (@a sign = -1) leaves the
+//! value range of the integer type of @a a
+static int int_result_overflows(const rtosc_arg_val_t* a,
+                                const rtosc_arg_val_t* b, int sign)
+{
+    switch(a->type)
+    {
+        case 'c':
+        case 'i':
+        {
+            int64_t res = (int64_t)a->val.i + sign * (int64_t)b->val.i;
+            return res > INT32_MAX || res < INT32_MIN;
+        }
+        case 'h':
+        {
+            int64_t x = a->val.h, y = b->val.h;
+            if(sign < 0)
+                return (y > 0 && x < INT64_MIN + y) ||
+                       (y < 0 && x > INT64_MAX + y);
+            else
+                return (y > 0 && x > INT64_MAX - y) ||
+                       (y < 0 && x < INT64_MIN - y);
+        }
+        default:
+            return 0;
+    }
+}
+
 //! tries to convert all args starting at @a arg into
 //! an arg val range - if possible
 //! @param arg_out array, output which must have the size of arg or more;
@@ -396,6 +424,9 @@ static int32_t rtosc_convert_to_range(const rtosc_arg_val_t* const arg,
     if(rtosc_arg_vals_eq_single(arg, arg + incsize(arg), NULL))
         has_delta = 0;
     else if(strchr(numeric_range_convertible_types(), arg->type)) {
+        // a progression that wraps around can not be written as a range
+        if(int_result_overflows(arg+1, arg, -1))
+            return 0;
         has_delta = 1;
         rtosc_arg_val_sub(arg+1, arg, &delta);
     }
@@ -409,7 +440,17 @@ static int32_t rtosc_convert_to_range(const rtosc_arg_val_t* const arg,
             next = skipped + incsize(arg+skipped);
 
             if(has_delta)
+            {
+                // stop where the next step, or the distance "last - first"
+                // that the reader computes, would overflow
+                if(int_result_overflows(arg+skipped, &delta, 1) ||
+                   (next < size && int_result_overflows(arg+next, arg, -1)))
+                {
+                    go_on = false;
+                    continue;
+                }
                 rtosc_arg_val_add(arg+skipped, &delta, &added);
+            }
 
             if(next >= size || !rtosc_arg_vals_eq_single(has_delta ? &added
                                                                    : arg,
